@@ -13,9 +13,17 @@ import (
 
 func c03Counts(tier string) (bulk, large int) {
 	if tier == "thorough" {
-		return 120000, 64
+		return 120000, 64 + 2*len(c03RingSizes(tier))
 	}
-	return 10000, 8
+	return 10000, 8 + 2*len(c03RingSizes(tier))
+}
+
+// c03RingSizes: lengths of parent_station rings swept over the threshold list.
+func c03RingSizes(tier string) []int {
+	if tier == "thorough" {
+		return core.Thresholds(5000)[1:]
+	}
+	return core.Thresholds(2100)[1:]
 }
 
 func init() {
@@ -295,7 +303,13 @@ func runC03(c *core.Ctx) {
 	r := c.R
 	_, nLarge := c03Counts(c.Tier)
 	var m *sgen.Model
-	if c.Index < nLarge {
+	rings := c03RingSizes(c.Tier)
+	ringLen := 0
+	if c.Index < 2*len(rings) {
+		ringLen = rings[c.Index/2]
+		m = sgen.Gen(r, sgen.Size{Agencies: 1, Routes: 2, Stops: ringLen + 2, Transfers: 2, Calendars: 1, CalDates: 1, Shapes: 0, ShapePtsPer: 1, Trips: 2, Freqs: 0, StopTimesPer: 3, Exact: true})
+		c.Feature("parent-ring-size-sweep")
+	} else if c.Index < nLarge {
 		m = sgen.Gen(r, largeSizes[c.Index%len(largeSizes)])
 		c.Feature("large-model")
 	} else {
@@ -304,7 +318,15 @@ func runC03(c *core.Ctx) {
 	a := sgen.Tables(m)
 	sgen.Tag(a)
 	nc := r.Intn(7)
-	done := sgen.Corrupt(a, r, nc)
+	var done []string
+	if ringLen > 0 {
+		nc = 0
+		if sgen.ParentRing(a, ringLen, c.Index%2 == 1, r) {
+			done = append(done, fmt.Sprintf("parent-ring=%d", ringLen))
+		}
+	} else {
+		done = sgen.Corrupt(a, r, nc)
+	}
 	kinds := map[string]bool{}
 	for _, d := range done {
 		k := d
@@ -339,6 +361,9 @@ func runC03(c *core.Ctx) {
 			}
 			sortStrings(ks)
 			c.Shape(fmt.Sprintf("%v a%d r%d s%d t%d tr%d", ks, len(s.Agencies), len(s.Routes), len(s.Stops), len(s.Transfers), len(s.Trips)))
+		}
+		if ringLen > 0 && !inherit {
+			c.Shape(fmt.Sprintf("parent-ring=%d tail-first=%v", ringLen, c.Index%2 == 1))
 		}
 		if c.WantSample() && nc > 0 && !inherit {
 			c.Sample(map[string]any{"corruptions": done, "accepted": map[string]int{"agencies": len(s.Agencies), "routes": len(s.Routes), "stops": len(s.Stops), "transfers": len(s.Transfers), "trips": len(s.Trips), "shapes": len(s.Shapes), "services": len(s.Services)}, "references_checked": refs, "stops.txt": sampleTables(a, 4)["stops.txt"]})
